@@ -28,7 +28,7 @@ ASSUMPTIONS = [
     "real-process scenarios are timing dependent: observed overlap implies real overlap, not the converse",
 ]
 MIN_CLASSES = {
-    "quick": {"duplicate:waiting": 50, "duplicate:running": 50, "duplicate:done": 50, "duplicate:ready": 50, "two-runs": 1000},
+    "quick": {"race:second-blocked": 40, "race:second-finished-first": 15, "duplicate:waiting": 50, "duplicate:running": 50, "duplicate:done": 50, "duplicate:ready": 50, "two-runs": 1000},
     "thorough": {"duplicate:waiting": 500, "duplicate:running": 500, "duplicate:done": 500},
 }
 
@@ -45,5 +45,50 @@ def cases(ctx):
     return eg.engine_cases(max_jobs=ctx.pick(4, 6), tokens=1, foreign=False, fail_pct=15, runs2_pct=50, dup_pct=90, wait_pct=10, max_sched=40)
 
 
-PARTS = [Part("engine", prop, strategy=cases, quick=4800, thorough=120000, shrink_budget=40)]
+# --- (c') two launches of one job script, the first one stopped at every line in turn ----------
+
+
+def race_enumerate(ctx):
+    from checks import c10
+
+    shapes = ["default"] if ctx.quick() else ["default", "forks", "partial"]
+    for shape in shapes:
+        _, total, _, _ = c10.template(ctx, shape)
+        for n in range(1, total + 1):
+            yield {"shape": shape, "n": n}
+
+
+def prop_race(ctx, case):
+    import shutil
+    from checks import c10
+    from vlib import crash
+
+    tpl, total, _, _ = c10.template(ctx, case["shape"])
+    d = ctx.scratch / "race"
+    shutil.rmtree(d, ignore_errors=True)
+    d.mkdir(parents=True)
+    jc = crash.JobCopy(tpl, d)
+    try:
+        r = jc.race(case["n"])
+        words = jc.log_words()
+        seq = [w for w in words if w in ("begin", "end")]
+        ph = c10.phase_of(r["where"])
+        if seq.count("begin") > 1:
+            overlap = "concurrently" if seq[:2] == ["begin", "begin"] else "again after it had succeeded"
+            ctx.violation(
+                f"body-ran-twice:{'concurrent' if seq[:2] == ['begin', 'begin'] else 'after-success'}:{ph}",
+                f"two launches of one job script, the first stopped at line event {case['n']}/{total} ({r['where']}): the body ran {overlap} (log {seq}, markers {jc.markers()})",
+            )
+        if seq.count("begin") == 0 and r["rc1"] not in (None,) and r["stopped"]:
+            ctx.violation("body-never-ran", f"two launches, first stopped at {case['n']}/{total}: the body never ran (exit statuses {r['rc1']}, {r['rc2']}, markers {jc.markers()})")
+        labels = ["race", f"race:first-stopped-in:{ph}", "race:second-blocked" if not r["p2_finished_while_p1_stopped"] else "race:second-finished-first"]
+        ctx.record(r["stopped"] and ph not in ("before-lock", "no-fault"), labels, sample={"case": case, "result": r, "log": seq})
+    finally:
+        shutil.rmtree(d, ignore_errors=True)
+
+
+PARTS = [
+    Part("engine", prop, strategy=cases, quick=4800, thorough=120000, shrink_budget=40),
+    Part("paused-racer", prop_race, enumerate=race_enumerate),
+]
 TIMEOUT = {"quick": 900, "thorough": 5400}
